@@ -3,7 +3,7 @@
 quick  = every rule serving the property (each is sub-second; the skeleton and configuration spaces are always enumerated in full)
 thorough = quick + cross-port agreement (XP) rules and the neighbouring rule groups the property's behaviour also rests on.
 """
-from .rules import ag, conf, cs, gs, hd, ifc, lk, ow, pa, rd, rs, sk, wr, xp
+from .rules import ag, agfold, conf, cs, gs, hd, ifc, lk, ow, pa, rd, rs, sk, wr, xp
 
 BOTH = ('py', 'js')
 PY = ('py',)
@@ -35,19 +35,19 @@ def one(*fns):
 
 
 SK_LOOP = both(sk.rule_sk_parse, sk.rule_sk_eof, sk.rule_sk_nr, sk.rule_sk_nf, sk.rule_sk_vars, sk.rule_sk_where)
-SK_SELECT = both(sk.rule_sk_emit, sk.rule_sk_unnest, sk.rule_sk_join)
-SK_UPDATE = both(sk.rule_sk_copy, sk.rule_sk_upd, sk.rule_sk_nu)
+SK_SELECT = both(sk.rule_sk_emit, sk.rule_sk_unnest, sk.rule_sk_unnest_pos, sk.rule_sk_join, sk.rule_sk_paren)
+SK_UPDATE = both(sk.rule_sk_copy, sk.rule_sk_upd, sk.rule_sk_nu, sk.rule_sk_paren)
 SK_ALL = SK_LOOP + SK_SELECT + SK_UPDATE + both(sk.rule_sk_stop, sk.rule_sk_err, sk.rule_sk_alias) + py(sk.rule_sk_scope)
 WR_ALL = both(wr.rule_wr_ret, wr.rule_wr_prop, wr.rule_wr_fin, wr.rule_wr_top, wr.rule_wr_uniq, wr.rule_wr_ucnt, wr.rule_wr_sort, wr.rule_wr_aggw)
 CONF_ALL = both(conf.rule_pa_conf, conf.rule_wr_order, conf.rule_pa_excl, conf.rule_pa_hdrcall, conf.rule_hd_arity, conf.rule_pa_with, conf.rule_rs_proto)
-AG_ALL = both(ag.rule_ag_route, ag.rule_ag_init, ag.rule_ag_stage, ag.rule_ag_const, ag.rule_ag_sib, ag.rule_ag_starcount, ag.rule_ag_keyord) + one(ag.rule_ag_mad)
+AG_ALL = both(ag.rule_ag_route, ag.rule_ag_init, ag.rule_ag_stage, ag.rule_ag_const, ag.rule_ag_sib, ag.rule_ag_starcount, ag.rule_ag_keyord, agfold.rule_ag_fold, agfold.rule_ag_median) + one(ag.rule_ag_mad)
 JN_ALL = both(ag.rule_jn_dispatch, ag.rule_jn_joiners, ag.rule_jn_build, ag.rule_pa_join)
-HD_ALL = both(hd.rule_hd_table, hd.rule_hd_startwin, hd.rule_hd_except, hd.rule_hd_update) + one(hd.rule_hd_shapes)
+HD_ALL = both(hd.rule_hd_table, hd.rule_hd_startwin, hd.rule_hd_except, hd.rule_hd_update, conf.rule_hd_countpos) + one(hd.rule_hd_shapes)
 VA_ALL = both(hd.rule_va_index, hd.rule_va_enum, hd.rule_va_esc) + one(hd.rule_va_record)
-PA_ALL = both(pa.rule_pa_case, pa.rule_pa_withcase, pa.rule_pa_groups, pa.rule_pa_litorder, pa.rule_pa_lit, pa.rule_pa_top, pa.rule_pa_asc, pa.rule_pa_redund)
+PA_ALL = both(pa.rule_pa_case, pa.rule_pa_withcase, pa.rule_pa_groups, pa.rule_pa_litorder, pa.rule_pa_cleanorder, pa.rule_pa_lit, pa.rule_pa_litcheck, pa.rule_pa_top, pa.rule_pa_zero, pa.rule_pa_asc, pa.rule_pa_redund)
 CS_ALL = both(cs.rule_rx_field, cs.rule_rx_newline, cs.rule_rx_ws, cs.rule_cs_trigger, cs.rule_cs_accept, cs.rule_cs_width, cs.rule_cs_extws, cs.rule_cs_dispatch, cs.rule_cs_writer)
 XP_ALL = one(xp.rule_rx_xp, xp.rule_xp_keywords, xp.rule_xp_roles, xp.rule_xp_messages, xp.rule_xp_verdicts)
-OW_ALL = both(ow.rule_ow_mut, ow.rule_ow_fresh, ow.rule_ow_open, ow.rule_ow_fs) + one(ow.rule_ow_sql, ow.rule_ow_pandas)
+OW_ALL = both(ow.rule_ow_mut, ow.rule_ow_fresh, ow.rule_ow_selwrap, ow.rule_ow_open, ow.rule_ow_fs) + one(ow.rule_ow_sql, ow.rule_ow_pandas)
 RD_PY = one(rd.rule_rd_mustflow, rd.rule_rd_partition, rd.rule_rd_crla) + py(rd.rule_rd_decode, rd.rule_rd_eof, rd.rule_rd_bom, rd.rule_rd_comment, rd.rule_rd_rfc, rd.rule_rd_hdrflag, rd.rule_rd_replay, cs.rule_rx_newline)
 RD_JS = one(rd.rule_rd_jschunk) + js(rd.rule_rd_decode, rd.rule_rd_eof, rd.rule_rd_bom, rd.rule_rd_comment, rd.rule_rd_rfc, rd.rule_rd_hdrflag, rd.rule_rd_replay, cs.rule_rx_newline)
 GS_ALL = one(gs.rule_gs_modstate, gs.rule_gs_classattr, gs.rule_gs_defaults, gs.rule_gs_ctxescape, gs.rule_gs_exec)
@@ -70,13 +70,13 @@ def only(rules, port):
 
 PROPS = {
     'C01': {
-        'rules': SK_LOOP + SK_SELECT + both(sk.rule_sk_stop, sk.rule_sk_err) + both(hd.rule_va_index, hd.rule_hd_startwin, hd.rule_hd_except, ow.rule_ow_fresh),
+        'rules': SK_LOOP + SK_SELECT + both(sk.rule_sk_stop, sk.rule_sk_err) + both(hd.rule_va_index, hd.rule_hd_startwin, hd.rule_hd_except, ow.rule_ow_fresh, ow.rule_ow_selwrap),
         'thorough_rules': both(sk.rule_sk_alias, wr.rule_wr_ret, wr.rule_wr_prop) + one(xp.rule_xp_verdicts),
         'explanation': 'Decides the loop structure of every generated SELECT program (all 16 select configurations per port, composed by partially evaluating the code generator from its own source): end-of-input test before NR, NR/NF definitions, variable initialisation dominating every user fragment and placed inside the join-match loop, WHERE control dependence, exactly one emission per evaluation selected by (aggregation stage, UNNEST), UNNEST reset on every cycle through the select fragment, join pairing order; plus aN/a[N] -> index N-1 with the safe_get guard, star/EXCEPT expansion as fresh lists.',
         'not_decided': 'that the regex-based rewriting of an arbitrary select list preserves its meaning (comma structure inside nested brackets, AS inside expressions); values computed by user expressions.',
     },
     'C02': {
-        'rules': WR_ALL + both(conf.rule_pa_conf, conf.rule_wr_order, conf.rule_pa_excl) + both(sk.rule_sk_stop, pa.rule_pa_top, pa.rule_pa_asc),
+        'rules': WR_ALL + both(conf.rule_pa_conf, conf.rule_wr_order, conf.rule_pa_excl) + both(sk.rule_sk_stop, pa.rule_pa_top, pa.rule_pa_zero, pa.rule_pa_asc),
         'thorough_rules': both(sk.rule_sk_emit, conf.rule_rs_proto) + one(xp.rule_xp_verdicts, xp.rule_xp_roles),
         'explanation': 'Decides the composition sort -> dedup -> truncate on the exhaustive configuration table of the shallow parser (1024 keyword configurations): wrapping order Top, Uniq|UniqCount, Sorted and presence iff keyword; per writer: stable ascending sort on the key only with DESC = reversal of that result, first-occurrence dedup on the immutable record image, insertion-ordered multiplicity map with count prefix, TOP refusing iff NW >= N and counting forwarded records; termination: every write() returns a boolean, every downstream verdict is propagated, a false verdict sets stop_flag, the loop tests it and inner loops break.',
         'not_decided': 'that user sort keys are mutually comparable; stability of sorted()/Array.sort (trusted language semantics).',
@@ -106,7 +106,7 @@ PROPS = {
         'not_decided': 'effects of user expressions themselves (assumed not to mutate; cells are immutable strings).',
     },
     'C07': {
-        'rules': HD_ALL + both(conf.rule_hd_arity, conf.rule_pa_hdrcall, conf.rule_pa_conf),
+        'rules': HD_ALL + both(conf.rule_hd_arity, conf.rule_pa_hdrcall, conf.rule_pa_conf, ow.rule_ow_mut),
         'thorough_rules': both(sk.rule_sk_copy, pa.rule_pa_case) + one(xp.rule_xp_verdicts),
         'explanation': 'Decides header/record arity agreement and the naming table: in every parser configuration the arity delta of the installed writers (DISTINCT COUNT: +1) is applied to the header before set_header; set_header is called exactly once on the unwrapped sink with nothing that can raise afterwards; UPDATE hands the unchanged input header; EXCEPT header and records use select_except with the same indices; naming decision table total and ordered (unnamed -> colK by output position, star forms, column name, alias, in-range index -> source name); subscript shapes of this interpreter\'s ast are covered; the two star-rewriting patterns agree; no input header and no alias -> no header.',
         'not_decided': 'that the header-side parse (python ast / JS bracket scanner) and the record-side evaluation of an arbitrary select list agree on the number of items.',
@@ -160,8 +160,8 @@ PROPS = {
         'not_decided': 'OS-level behaviour of pipes and the text wrapper\'s flushing.',
     },
     'C16': {
-        'rules': GS_ALL + py(sk.rule_sk_scope, lk.rule_lk_cache),
-        'thorough_rules': py(sk.rule_sk_alias, ow.rule_ow_mut),
+        'rules': GS_ALL + py(sk.rule_sk_scope, lk.rule_lk_cache, ow.rule_ow_mut),
+        'thorough_rules': py(sk.rule_sk_alias),
         'explanation': 'Decides isolation as absence of shared mutable state (hence independence of every schedule and history): inventory of module-level bindings with every mutable one never the receiver of a mutating operation; `global` writes allow-listed (two debug flags); no class-level mutable attribute, no mutable default; the per-query context is created per call, only passed down or captured by per-run closures; exec receives explicit globals and a per-call locals mapping and runs the composed skeleton whose every binding is local to the wrapper function; the LIKE cache lives in the context.',
         'not_decided': 'stdlib-internal caches (re) and whatever user expressions touch; the JavaScript module-global query_context is outside this property\'s anchors and reported only as evidence.',
     },
